@@ -2,6 +2,7 @@ SPECIFICATION Spec
 CONSTANTS
   NConn = 2
   MaxReq = 2
+  MaxReq2 = 1
   Protos <- AllProtos
   TlsModes <- OnlyFalse
   MakeModes <- BothBool
